@@ -114,7 +114,6 @@ Proof. induction l as [|h t IH]; intros [|i] x y H; cbn in *; try discriminate; 
 Lemma upd_other {A} (l : list A) : forall i j x, j <> i -> nth_error (upd l i x) j = nth_error l j.
 Proof.
   induction l as [|h t IH]; intros [|i] [|j] x H; cbn [upd nth_error]; auto; try contradiction.
-  apply IH. intros ->. apply H. reflexivity.
 Qed.
 
 Lemma pstep_bad l : fold_left pstep l Bad = Bad.
@@ -151,7 +150,7 @@ Qed.
 Lemma all_states_at P p : forall s q, all_states P s (p ++ q) -> P (fold_left bstep p s).
 Proof.
   induction p as [|e p IH]; intros s q H.
-  - cbn [app fold_left]. destruct q; cbn [all_states] in H; tauto.
+  - cbn [app fold_left] in *. destruct q; cbn [all_states] in H; tauto.
   - cbn [app all_states] in H. cbn [fold_left]. apply (IH _ q). tauto.
 Qed.
 
@@ -172,4 +171,475 @@ Proof.
       cbn [all_states bstep negb app fst snd]; rewrite ?T; repeat split; eauto.
   - apply mailfile_success_l.
   - intros c Hc Hn. exact (mailfile_rollback_l base entry f c Hl Hc Hn).
+Qed.
+
+Lemma nth_error_map' {A B} (f : A -> B) l : forall i, nth_error (map f l) i = option_map f (nth_error l i).
+Proof. induction l as [|h t IH]; intros [|i]; cbn; auto. Qed.
+
+Lemma committed_frame ws i w' order :
+  (In i order -> exit0 (upd ws i w') i = exit0 ws i) ->
+  filter (exit0 (upd ws i w')) order = filter (exit0 ws) order.
+Proof.
+  intros H. apply filter_ext_in. intros j Hj. destruct (Nat.eq_dec j i) as [->|Hne]; [auto|].
+  unfold exit0, wexit. rewrite upd_other by exact Hne. reflexivity.
+Qed.
+Lemma exit0_upd ws i w w' : nth_error ws i = Some w ->
+  exit0 (upd ws i w') i = match bexit (w_done w') with Some 0 => true | _ => false end.
+Proof. intros H. unfold exit0, wexit. rewrite (upd_same _ _ _ _ H). reflexivity. Qed.
+Lemma exit0_at ws i w : nth_error ws i = Some w ->
+  exit0 ws i = match bexit (w_done w) with Some 0 => true | _ => false end.
+Proof. intros H. unfold exit0, wexit. rewrite H. reflexivity. Qed.
+
+Section Conc.
+Variable old : bytes.
+Variable spec : list (bytes * list bev).     (* writer i: the entry it delivers and its program *)
+Hypothesis spec_good : Forall (fun ep => good_prog (fst ep) (snd ep)) spec.
+
+Definition ent (i : nat) : bytes := fst (nth i spec ([], [])).
+Definition prog (i : nat) : list bev := snd (nth i spec ([], [])).
+Definition base (s : cstate) : bytes := old ++ concat (map ent (committed s)).
+
+Record Inv (s : cstate) : Prop := {
+  inv_len : length (c_ws s) = length spec;
+  inv_w : forall i w, nth_error (c_ws s) i = Some w ->
+      w_done w ++ w_evs w = prog i /\
+      (phase_of (w_done w) = Hold <-> c_lock s = Some i) /\
+      (In i (c_order s) <-> phase_of (w_done w) = Hold \/ phase_of (w_done w) = DoneL) /\
+      (phase_of (w_done w) = Pre -> w_pos w = 0%nat);
+  inv_nodup : NoDup (c_order s);
+  inv_last : forall h, c_lock s = Some h -> exists o, c_order s = o ++ [h];
+  inv_file : match c_lock s with
+             | None => c_file s = base s
+             | Some h => exists w, nth_error (c_ws s) h = Some w /\
+                          (c_file s, w_pos w) = fold_left bstep (w_done w) (base s, 0%nat)
+             end }.
+
+Lemma good_at i : (i < length spec)%nat -> good_prog (ent i) (prog i).
+Proof.
+  intros H. unfold ent, prog.
+  exact (proj1 (Forall_forall _ _) spec_good _ (nth_In spec ([], []) H)).
+Qed.
+
+Lemma Inv_init : Inv (cinit old (map snd spec)).
+Proof.
+  constructor; cbn [cinit c_file c_lock c_order c_ws].
+  - rewrite !map_length. reflexivity.
+  - intros i w H. rewrite nth_error_map', nth_error_map' in H.
+    destruct (nth_error spec i) as [ep|] eqn:E; [|discriminate]. cbn in H. injection H as <-.
+    cbn [w_done w_evs w_pos app]. unfold prog. rewrite (nth_error_nth _ _ _ E).
+    repeat split; try discriminate; try (intros []; discriminate); try contradiction; auto.
+  - constructor.
+  - discriminate.
+  - unfold base, committed. cbn. rewrite app_nil_r. reflexivity.
+Qed.
+
+(* a step that neither takes nor releases the lock nor exits *)
+Lemma Inv_quiet s i w e rest :
+  Inv s -> nth_error (c_ws s) i = Some w -> w_evs w = e :: rest ->
+  phase_of (w_done w) = Pre \/ phase_of (w_done w) = Hold ->
+  pstep (phase_of (w_done w)) e = phase_of (w_done w) ->
+  Inv {| c_file := fst (bstep (c_file s, w_pos w) e); c_lock := c_lock s; c_order := c_order s;
+         c_ws := upd (c_ws s) i {| w_done := w_done w ++ [e]; w_evs := rest;
+                                   w_pos := snd (bstep (c_file s, w_pos w) e) |} |}.
+Proof.
+  intros I Hw Hev Hph Hst.
+  destruct (inv_w s I i w Hw) as (Wp & Wh & Wo & Wz).
+  assert (Hne : bexit (w_done w ++ [e]) = bexit (w_done w)).
+  { rewrite bexit_snoc. destruct e; try reflexivity.
+    destruct Hph as [P|P]; rewrite P in Hst; discriminate. }
+  assert (Hb : forall o, filter (exit0 (upd (c_ws s) i {| w_done := w_done w ++ [e]; w_evs := rest;
+                 w_pos := snd (bstep (c_file s, w_pos w) e) |})) o = filter (exit0 (c_ws s)) o).
+  { intros o. apply committed_frame. intros _. rewrite (exit0_upd _ _ _ _ Hw), (exit0_at _ _ _ Hw).
+    cbn [w_done]. rewrite Hne. reflexivity. }
+  constructor; cbn [c_file c_lock c_order c_ws].
+  - rewrite upd_length. exact (inv_len s I).
+  - intros j wj Hj. destruct (Nat.eq_dec j i) as [->|Hji].
+    + rewrite (upd_same _ _ _ _ Hw) in Hj. injection Hj as <-. cbn [w_done w_evs w_pos].
+      rewrite phase_snoc, Hst. repeat split; try tauto.
+      * rewrite <- app_assoc. cbn [app]. rewrite <- Hev. exact Wp.
+      * intros P. rewrite P in Hst.
+        destruct e as [b|[|]| | | | |c]; cbn in Hst; try discriminate.
+        cbn [bstep snd]. exact (Wz P).
+    + rewrite upd_other in Hj by exact Hji. exact (inv_w s I j wj Hj).
+  - exact (inv_nodup s I).
+  - exact (inv_last s I).
+  - pose proof (inv_file s I) as F. unfold base, committed in *. cbn [c_ws c_order]. rewrite Hb.
+    destruct (c_lock s) as [h|] eqn:L.
+    + destruct F as (w0 & Hw0 & F). destruct (Nat.eq_dec h i) as [->|Hhi].
+      * rewrite Hw in Hw0. injection Hw0 as <-.
+        eexists. split; [apply (upd_same _ _ _ _ Hw)|]. cbn [w_done w_pos].
+        rewrite fold_left_app. cbn [fold_left]. rewrite <- F. symmetry. apply surjective_pairing.
+      * exists w0. rewrite upd_other by exact Hhi. split; [exact Hw0|].
+        assert (P : phase_of (w_done w) = Pre).
+        { destruct Hph as [P|P]; [exact P|]. apply Wh in P. congruence. }
+        rewrite P in Hst. destruct e as [b|[|]| | | | |c]; cbn in Hst; try discriminate.
+        cbn [bstep fst]. exact F.
+    + assert (P : phase_of (w_done w) = Pre).
+      { destruct Hph as [P|P]; [exact P|]. apply Wh in P. congruence. }
+      rewrite P in Hst. destruct e as [b|[|]| | | | |c]; cbn in Hst; try discriminate.
+      cbn [bstep fst]. exact F.
+Qed.
+
+(* taking the free lock *)
+Lemma Inv_lock s i w rest :
+  Inv s -> nth_error (c_ws s) i = Some w -> w_evs w = BLock true :: rest ->
+  phase_of (w_done w) = Pre -> c_lock s = None ->
+  Inv {| c_file := c_file s; c_lock := Some i; c_order := c_order s ++ [i];
+         c_ws := upd (c_ws s) i {| w_done := w_done w ++ [BLock true]; w_evs := rest; w_pos := w_pos w |} |}.
+Proof.
+  intros I Hw Hev P L.
+  destruct (inv_w s I i w Hw) as (Wp & Wh & Wo & Wz).
+  assert (Hni : ~ In i (c_order s)).
+  { intros H. apply Wo in H. rewrite P in H. destruct H; discriminate. }
+  constructor; cbn [c_file c_lock c_order c_ws].
+  - rewrite upd_length. exact (inv_len s I).
+  - intros j wj Hj. destruct (Nat.eq_dec j i) as [->|Hji].
+    + rewrite (upd_same _ _ _ _ Hw) in Hj. injection Hj as <-. cbn [w_done w_evs w_pos].
+      rewrite phase_snoc, P. cbn [pstep]. repeat split; try tauto; try discriminate.
+      * rewrite <- app_assoc. cbn [app]. rewrite <- Hev. exact Wp.
+      * intros _. apply in_or_app. right. left. reflexivity.
+    + rewrite upd_other in Hj by exact Hji.
+      destruct (inv_w s I j wj Hj) as (Vp & Vh & Vo & Vz). rewrite L in Vh.
+      repeat split; try tauto.
+      * intros H. apply Vh in H. discriminate.
+      * intros H. injection H as ->. contradiction.
+      * intros H. apply in_app_or in H as [H|[H|[]]]; [tauto|]. subst. contradiction.
+      * intros H. apply in_or_app. left. tauto.
+  - apply (Permutation_NoDup (Permutation_cons_append (c_order s) i)).
+    constructor; [exact Hni|exact (inv_nodup s I)].
+  - intros h H. injection H as <-. eexists. reflexivity.
+  - eexists. split; [apply (upd_same _ _ _ _ Hw)|]. cbn [w_done w_pos].
+    pose proof (inv_file s I) as F. rewrite L in F.
+    unfold base, committed in *. cbn [c_ws c_order].
+    rewrite filter_app, committed_frame by (intros; contradiction).
+    cbn [filter]. rewrite (exit0_upd _ _ _ _ Hw). cbn [w_done].
+    rewrite bexit_snoc, (phase_noexit (w_done w)) by (left; exact P).
+    rewrite app_nil_r, fold_left_app. cbn [fold_left].
+    rewrite (phase_pre_id _ P). cbn [bstep]. rewrite (Wz P), F. reflexivity.
+Qed.
+
+(* exit of a writer that never held the lock (open failure) *)
+Lemma Inv_exit_pre s i w c rest :
+  Inv s -> nth_error (c_ws s) i = Some w -> w_evs w = BExit c :: rest ->
+  phase_of (w_done w) = Pre ->
+  Inv {| c_file := c_file s;
+         c_lock := match c_lock s with Some h => if Nat.eqb h i then None else Some h | None => None end;
+         c_order := c_order s;
+         c_ws := upd (c_ws s) i {| w_done := w_done w ++ [BExit c]; w_evs := rest; w_pos := w_pos w |} |}.
+Proof.
+  intros I Hw Hev P.
+  destruct (inv_w s I i w Hw) as (Wp & Wh & Wo & Wz).
+  assert (Hni : ~ In i (c_order s)).
+  { intros H. apply Wo in H. rewrite P in H. destruct H; discriminate. }
+  assert (Hl : c_lock s <> Some i).
+  { intros H. apply Wh in H. congruence. }
+  assert (L : match c_lock s with Some h => if Nat.eqb h i then None else Some h | None => None end = c_lock s).
+  { destruct (c_lock s) as [h|]; [|reflexivity]. destruct (Nat.eqb_spec h i) as [->|]; [contradiction|reflexivity]. }
+  rewrite L.
+  constructor; cbn [c_file c_lock c_order c_ws].
+  - rewrite upd_length. exact (inv_len s I).
+  - intros j wj Hj. destruct (Nat.eq_dec j i) as [->|Hji].
+    + rewrite (upd_same _ _ _ _ Hw) in Hj. injection Hj as <-. cbn [w_done w_evs w_pos].
+      rewrite phase_snoc, P. cbn [pstep]. repeat split; try tauto; try discriminate.
+      * rewrite <- app_assoc. cbn [app]. rewrite <- Hev. exact Wp.
+      * intros [H|H]; discriminate.
+    + rewrite upd_other in Hj by exact Hji. exact (inv_w s I j wj Hj).
+  - exact (inv_nodup s I).
+  - exact (inv_last s I).
+  - pose proof (inv_file s I) as F. unfold base, committed in *. cbn [c_ws c_order].
+    rewrite committed_frame by (intros; contradiction).
+    destruct (c_lock s) as [h|]; [|exact F].
+    destruct F as (w0 & Hw0 & F). exists w0. rewrite upd_other by congruence. auto.
+Qed.
+
+(* exit of the lock holder: the single-writer theorems decide what is left in the file *)
+Lemma Inv_exit_hold s i w c rest :
+  Inv s -> nth_error (c_ws s) i = Some w -> w_evs w = BExit c :: rest ->
+  phase_of (w_done w) = Hold ->
+  Inv {| c_file := c_file s;
+         c_lock := match c_lock s with Some h => if Nat.eqb h i then None else Some h | None => None end;
+         c_order := c_order s;
+         c_ws := upd (c_ws s) i {| w_done := w_done w ++ [BExit c]; w_evs := rest; w_pos := w_pos w |} |}.
+Proof.
+  intros I Hw Hev P.
+  destruct (inv_w s I i w Hw) as (Wp & Wh & Wo & Wz).
+  assert (L : c_lock s = Some i) by (apply Wh; exact P).
+  assert (Hi : (i < length spec)%nat).
+  { rewrite <- (inv_len s I). apply nth_error_Some. congruence. }
+  destruct (good_at i Hi) as (Gph & Gx0 & Gb).
+  assert (Hr : rest = []).
+  { rewrite <- Wp, Hev in Gph. unfold phase_of in Gph. rewrite fold_left_app in Gph. cbn [fold_left] in Gph.
+    fold (phase_of (w_done w)) in Gph. rewrite P in Gph. cbn [pstep] in Gph.
+    apply (pstep_done rest DoneL); auto. }
+  subst rest.
+  assert (Ep : prog i = w_done w ++ [BExit c]) by (rewrite <- Wp, Hev; reflexivity).
+  destruct (inv_last s I i L) as (o & Ho).
+  pose proof (inv_nodup s I) as ND. rewrite Ho in ND.
+  assert (Hio : ~ In i o).
+  { apply NoDup_remove_2 in ND. rewrite app_nil_r in ND. exact ND. }
+  rewrite L, Nat.eqb_refl.
+  constructor; cbn [c_file c_lock c_order c_ws].
+  - rewrite upd_length. exact (inv_len s I).
+  - intros j wj Hj. destruct (Nat.eq_dec j i) as [->|Hji].
+    + rewrite (upd_same _ _ _ _ Hw) in Hj. injection Hj as <-. cbn [w_done w_evs w_pos].
+      rewrite phase_snoc, P. cbn [pstep]. repeat split; try tauto; try discriminate.
+      * rewrite app_nil_r. symmetry. exact Ep.
+    + rewrite upd_other in Hj by exact Hji.
+      destruct (inv_w s I j wj Hj) as (Vp & Vh & Vo & Vz). rewrite L in Vh.
+      repeat split; try tauto; try discriminate.
+      intros H. apply Vh in H. congruence.
+  - exact ND || (rewrite Ho; exact ND).
+  - discriminate.
+  - pose proof (inv_file s I) as F. rewrite L in F. destruct F as (w0 & Hw0 & F).
+    rewrite Hw in Hw0. injection Hw0 as <-.
+    unfold base, committed in *. cbn [c_ws c_order]. rewrite Ho in *.
+    rewrite filter_app in F. rewrite filter_app, committed_frame by (intros; contradiction).
+    cbn [filter] in *. rewrite (exit0_upd _ _ _ _ Hw). rewrite (exit0_at _ _ _ Hw) in F.
+    cbn [w_done]. rewrite bexit_snoc. rewrite (phase_noexit (w_done w)) in F by (right; exact P).
+    rewrite app_nil_r in F.
+    set (b0 := old ++ concat (map ent (filter (exit0 (c_ws s)) o))) in *.
+    assert (Hrun : c_file s = brun b0 (prog i)).
+    { unfold brun. rewrite Ep, fold_left_app. cbn [fold_left bstep]. rewrite <- F. reflexivity. }
+    assert (Hex : bexit (prog i) = Some c) by (rewrite Ep, bexit_snoc; reflexivity).
+    destruct (Gb b0) as (_ & G0 & G1).
+    destruct (N.eq_dec c 0) as [->|Hc].
+    + cbn. rewrite map_app, concat_app. cbn [map concat]. rewrite app_nil_r, app_assoc.
+      fold b0. rewrite Hrun. apply G0. exact Hex.
+    + destruct c as [|pc]; [contradiction|]. rewrite app_nil_r. fold b0. rewrite Hrun.
+      apply (G1 _ Hex). discriminate.
+Qed.
+
+Lemma Inv_step s i : Inv s -> Inv (cstep s i).
+Proof.
+  intros I. unfold cstep.
+  destruct (nth_error (c_ws s) i) as [w|] eqn:Hw; [|exact I].
+  destruct (w_evs w) as [|e rest] eqn:Hev; [exact I|].
+  destruct (inv_w s I i w Hw) as (Wp & Wh & Wo & Wz).
+  assert (Hi : (i < length spec)%nat).
+  { rewrite <- (inv_len s I). apply nth_error_Some. congruence. }
+  destruct (good_at i Hi) as (Gph & _ & _).
+  rewrite <- Wp, Hev in Gph. unfold phase_of in Gph. rewrite fold_left_app in Gph. cbn [fold_left] in Gph.
+  fold (phase_of (w_done w)) in Gph.
+  assert (Hnb : pstep (phase_of (w_done w)) e <> Bad).
+  { intros B. rewrite B, pstep_bad in Gph. destruct Gph; discriminate. }
+  destruct (phase_of (w_done w)) eqn:P; destruct e as [b|[|]| | | | |c]; cbn [pstep] in Hnb;
+    try (exfalso; apply Hnb; reflexivity).
+  - apply (Inv_quiet s i w _ rest I Hw Hev); rewrite P; auto.
+  - destruct (c_lock s) eqn:L; [exact I|]. apply (Inv_lock s i w rest I Hw Hev P L).
+  - apply (Inv_exit_pre s i w c rest I Hw Hev P).
+  - apply (Inv_quiet s i w _ rest I Hw Hev); rewrite P; auto.
+  - apply (Inv_quiet s i w _ rest I Hw Hev); rewrite P; auto.
+  - apply (Inv_quiet s i w _ rest I Hw Hev); rewrite P; auto.
+  - apply (Inv_quiet s i w _ rest I Hw Hev); rewrite P; auto.
+  - apply (Inv_exit_hold s i w c rest I Hw Hev P).
+Qed.
+
+Lemma Inv_run sched : forall s, Inv s -> Inv (crun s sched).
+Proof.
+  induction sched as [|i sched IH]; intros s I; [exact I|].
+  cbn [crun fold_left]. apply IH. apply Inv_step. exact I.
+Qed.
+
+Definition start : cstate := cinit old (map snd spec).
+
+(* Serialisability, at every reachable state: the file is the old content, then the whole entries of
+   the writers that completed successfully, in lock order, then a prefix of the lock holder's entry. *)
+Theorem conc_no_interleaving_gen : forall sched,
+  let s := crun start sched in
+  exists k : nat,
+    c_file s = old ++ concat (map ent (committed s)) ++
+               match c_lock s with None => [] | Some h => firstn k (ent h) end.
+Proof.
+  intros sched s. pose proof (Inv_run sched start Inv_init) as I. fold s in I.
+  pose proof (inv_file s I) as F. destruct (c_lock s) as [h|] eqn:L.
+  - destruct F as (w & Hw & F).
+    destruct (inv_w s I h w Hw) as (Wp & _).
+    assert (Hh : (h < length spec)%nat).
+    { rewrite <- (inv_len s I). apply nth_error_Some. congruence. }
+    destruct (good_at h Hh) as (_ & _ & Gb). destruct (Gb (base s)) as (GA & _).
+    rewrite <- Wp in GA. apply all_states_at in GA. rewrite <- F in GA. destruct GA as (k & Hk).
+    exists k. cbn [fst] in Hk. rewrite Hk. unfold base. rewrite <- app_assoc. reflexivity.
+  - exists 0%nat. rewrite app_nil_r. exact F.
+Qed.
+
+(* the bookkeeping of the lock: acquisition order has no repetition, the holder is its last element,
+   has not exited, and is not (yet) counted as committed *)
+Theorem conc_lock_order_gen : forall sched,
+  let s := crun start sched in
+  NoDup (c_order s) /\
+  forall h, c_lock s = Some h ->
+    (exists o, c_order s = o ++ [h]) /\ wexit (c_ws s) h = None /\ ~ In h (committed s).
+Proof.
+  intros sched s. pose proof (Inv_run sched start Inv_init) as I. fold s in I.
+  split; [exact (inv_nodup s I)|]. intros h L.
+  pose proof (inv_file s I) as F. rewrite L in F. destruct F as (w & Hw & _).
+  destruct (inv_w s I h w Hw) as (_ & Wh & _).
+  assert (X : wexit (c_ws s) h = None).
+  { unfold wexit. rewrite Hw. apply phase_noexit. right. apply Wh. exact L. }
+  split; [exact (inv_last s I h L)|]. split; [exact X|].
+  unfold committed. intros H. apply filter_In in H as [_ H]. unfold exit0 in H. rewrite X in H. discriminate.
+Qed.
+
+(* when everybody has finished: nobody holds the lock, and the file is the old content followed by
+   the entries of exactly the writers that exited 0, each once, in the order they took the lock;
+   a writer that exited non-zero contributes nothing *)
+Theorem conc_finished_gen : forall sched,
+  let s := crun start sched in
+  all_finished s ->
+  c_lock s = None /\
+  c_file s = old ++ concat (map ent (committed s)) /\
+  NoDup (committed s) /\
+  forall i, In i (committed s) <-> wexit (c_ws s) i = Some 0.
+Proof.
+  intros sched s Fin. pose proof (Inv_run sched start Inv_init) as I. fold s in I.
+  assert (Hdone : forall i w, nth_error (c_ws s) i = Some w ->
+            w_done w = prog i /\ (phase_of (prog i) = DoneL \/ phase_of (prog i) = DoneN)).
+  { intros i w Hw. destruct (inv_w s I i w Hw) as (Wp & _).
+    rewrite (Fin w (nth_error_In _ _ Hw)), app_nil_r in Wp. split; [exact Wp|].
+    assert (Hi : (i < length spec)%nat).
+    { rewrite <- (inv_len s I). apply nth_error_Some. congruence. }
+    exact (proj1 (good_at i Hi)). }
+  assert (L : c_lock s = None).
+  { destruct (c_lock s) as [h|] eqn:L; [|reflexivity]. exfalso.
+    pose proof (inv_file s I) as F. rewrite L in F. destruct F as (w & Hw & _).
+    destruct (inv_w s I h w Hw) as (_ & Wh & _). apply Wh in L.
+    destruct (Hdone h w Hw) as (E & D). rewrite E in L. rewrite L in D. destruct D; discriminate. }
+  split; [exact L|]. split.
+  - pose proof (inv_file s I) as F. rewrite L in F. exact F.
+  - split; [apply NoDup_filter; exact (inv_nodup s I)|].
+    intros i. unfold committed. rewrite filter_In. unfold exit0. split.
+    + intros [_ H]. destruct (wexit (c_ws s) i) as [[|p]|]; try discriminate. reflexivity.
+    + intros H. rewrite H. split; [|reflexivity].
+      unfold wexit in H. destruct (nth_error (c_ws s) i) as [w|] eqn:Hw; [|discriminate].
+      destruct (inv_w s I i w Hw) as (_ & _ & Wo & _). apply Wo. right.
+      destruct (Hdone i w Hw) as (E & _). rewrite E in *.
+      assert (Hi : (i < length spec)%nat).
+      { rewrite <- (inv_len s I). apply nth_error_Some. congruence. }
+      destruct (good_at i Hi) as (_ & G0 & _). exact (G0 H).
+Qed.
+
+End Conc.
+
+(* ---- instance: n copies of qmail-local's mailfile(), each with its own entry and fault plan ---- *)
+Definition mprogs (l : list (bytes * bfaults)) : list (list bev) :=
+  map (fun ef => mailfile_events (fst ef) (snd ef)) l.
+Definition mspec (l : list (bytes * bfaults)) : list (bytes * list bev) :=
+  map (fun ef => (fst ef, mailfile_events (fst ef) (snd ef))) l.
+Definition entry_of (l : list (bytes * bfaults)) (i : nat) : bytes := nth i (map fst l) [].
+Definition mstart (old : bytes) (l : list (bytes * bfaults)) : cstate := cinit old (mprogs l).
+
+Lemma mspec_progs l : map snd (mspec l) = mprogs l.
+Proof. unfold mspec, mprogs. rewrite map_map. reflexivity. Qed.
+Lemma mspec_ent l : forall i, ent (mspec l) i = entry_of l i.
+Proof.
+  unfold ent, entry_of. induction l as [|ef l IH]; intros [|i]; cbn [mspec map nth fst]; auto.
+Qed.
+Lemma mspec_good l : Forall (fun ef => bf_lock (snd ef) = false) l ->
+  Forall (fun ep => good_prog (fst ep) (snd ep)) (mspec l).
+Proof.
+  intros H. unfold mspec. apply Forall_forall. intros ep Hin.
+  apply in_map_iff in Hin as (ef & <- & Hin). cbn [fst snd].
+  apply mailfile_good. exact (proj1 (Forall_forall _ _) H ef Hin).
+Qed.
+
+Theorem mbox_concurrent_no_interleaving : forall old l sched,
+  Forall (fun ef => bf_lock (snd ef) = false) l ->
+  let s := crun (mstart old l) sched in
+  exists k : nat,
+    c_file s = old ++ concat (map (entry_of l) (committed s)) ++
+               match c_lock s with None => [] | Some h => firstn k (entry_of l h) end.
+Proof.
+  intros old l sched Hl s.
+  destruct (conc_no_interleaving_gen old (mspec l) (mspec_good l Hl) sched) as (k & Hk).
+  unfold start in Hk. rewrite mspec_progs in Hk. fold (mstart old l) in Hk. fold s in Hk.
+  exists k. rewrite Hk. rewrite (map_ext _ _ (mspec_ent l)).
+  destruct (c_lock s); [rewrite mspec_ent|]; reflexivity.
+Qed.
+Print Assumptions mbox_concurrent_no_interleaving.
+
+Theorem mbox_concurrent_lock_order : forall old l sched,
+  Forall (fun ef => bf_lock (snd ef) = false) l ->
+  let s := crun (mstart old l) sched in
+  NoDup (c_order s) /\
+  forall h, c_lock s = Some h ->
+    (exists o, c_order s = o ++ [h]) /\ wexit (c_ws s) h = None /\ ~ In h (committed s).
+Proof.
+  intros old l sched Hl s.
+  pose proof (conc_lock_order_gen old (mspec l) (mspec_good l Hl) sched) as H.
+  unfold start in H. rewrite mspec_progs in H. exact H.
+Qed.
+Print Assumptions mbox_concurrent_lock_order.
+
+Theorem mbox_concurrent_finished : forall old l sched,
+  Forall (fun ef => bf_lock (snd ef) = false) l ->
+  let s := crun (mstart old l) sched in
+  all_finished s ->
+  c_lock s = None /\
+  c_file s = old ++ concat (map (entry_of l) (committed s)) /\
+  NoDup (committed s) /\
+  forall i, In i (committed s) <-> wexit (c_ws s) i = Some 0.
+Proof.
+  intros old l sched Hl s Fin.
+  pose proof (conc_finished_gen old (mspec l) (mspec_good l Hl) sched) as H.
+  unfold start in H. rewrite mspec_progs in H. specialize (H Fin).
+  rewrite (map_ext _ _ (mspec_ent l)) in H. exact H.
+Qed.
+Print Assumptions mbox_concurrent_finished.
+
+(* ---- non-vacuity: three writers, the second one hits a write error after 2 of its 3 bytes ---- *)
+Definition bf_none : bfaults :=
+  {| bf_open := false; bf_lock := false; bf_write := None; bf_read := None; bf_fsync := false |}.
+Definition bf_wfail (n : nat) : bfaults :=
+  {| bf_open := false; bf_lock := false; bf_write := Some n; bf_read := None; bf_fsync := false |}.
+Definition ex3 : list (bytes * bfaults) := [([1; 2], bf_none); ([3; 4; 5], bf_wfail 2); ([6; 7], bf_none)].
+Definition ex3_sched : list nat :=
+  [0; 1; 2; 1; 1; 0; 2; 1; 1; 0; 2; 1; 1; 2; 2; 0; 2; 0; 2; 0; 2; 0; 0; 0; 0; 0]%nat.
+(* what one can observe of a state: file, lock holder, lock order, committed, exit codes, events left *)
+Definition cview (s : cstate) :=
+  (c_file s, c_lock s, c_order s, committed s,
+   map (fun w => bexit (w_done w)) (c_ws s), map (fun w => length (w_evs w)) (c_ws s)).
+
+(* writer 1 got the lock first; writers 0 and 2 are stalled on it; 2 bytes of writer 1 are in the file *)
+Example conc_ex3_mid :
+  cview (crun (mstart [9] ex3) (firstn 8 ex3_sched)) =
+  ([9; 3; 4], Some 1%nat, [1%nat], [], [None; None; None], [5; 2; 5]%nat).
+Proof. vm_compute. reflexivity. Qed.
+(* writer 1 has rolled back and exited 111; writer 2 holds the lock and has written its entry *)
+Example conc_ex3_mid2 :
+  cview (crun (mstart [9] ex3) (firstn 17 ex3_sched)) =
+  ([9; 6; 7], Some 2%nat, [1; 2]%nat, [], [None; Some 111; None], [5; 0; 2]%nat).
+Proof. vm_compute. reflexivity. Qed.
+(* the end: lock order 1,2,0; the file holds old, entry 2, entry 0; nothing of writer 1 *)
+Example conc_ex3_final :
+  cview (crun (mstart [9] ex3) ex3_sched) =
+  ([9; 6; 7; 1; 2], None, [1; 2; 0]%nat, [2; 0]%nat, [Some 0; Some 111; Some 0], [0; 0; 0]%nat).
+Proof. vm_compute. reflexivity. Qed.
+Example conc_ex3_finished : all_finished (crun (mstart [9] ex3) ex3_sched).
+Proof. intros w H. vm_compute in H. repeat (destruct H as [<-|H]; [reflexivity|]). contradiction. Qed.
+
+(* ---- the lock is needed.  Two writers whose lock_ex() failed (qmail-local carries on without the
+   lock, flaglocked = 0, and then skips seek_trunc): the second fails after 1 byte.  Its stray byte
+   stays, and here it lands in front of the other, successful entry.  So without the hypothesis
+   bf_lock = false the finished-state equation is false. ---- *)
+Definition bf_nolock (wr : option nat) : bfaults :=
+  {| bf_open := false; bf_lock := true; bf_write := wr; bf_read := None; bf_fsync := false |}.
+Definition ex2_nolock : list (bytes * bfaults) := [([1; 2], bf_nolock None); ([3; 4], bf_nolock (Some 1%nat))].
+Definition ex2_sched : list nat := [0; 1; 0; 1; 0; 1; 1; 0; 0; 1; 0; 1; 0; 1]%nat.
+Example mbox_concurrent_without_lock_refuted :
+  let s := crun (mstart [9] ex2_nolock) ex2_sched in
+  all_finished s /\
+  map (fun w => bexit (w_done w)) (c_ws s) = [Some 0; Some 111] /\
+  c_file s = [9; 3; 1; 2] /\
+  c_file s <> [9] ++ concat (map (entry_of ex2_nolock) (committed s)) /\
+  c_file s <> [9] ++ entry_of ex2_nolock 0.
+Proof.
+  cbv zeta. split; [|vm_compute; repeat split; discriminate].
+  intros w H. vm_compute in H. repeat (destruct H as [<-|H]; [reflexivity|]). contradiction.
+Qed.
+Example mbox_concurrent_finished_without_lock_refuted :
+  ~ (forall old l sched, let s := crun (mstart old l) sched in
+       all_finished s -> c_file s = old ++ concat (map (entry_of l) (committed s))).
+Proof.
+  intros H. specialize (H [9] ex2_nolock ex2_sched).
+  pose proof mbox_concurrent_without_lock_refuted as (F & _ & _ & N & _). exact (N (H F)).
 Qed.
